@@ -1,7 +1,8 @@
 #!/bin/bash
+V="${VERIF_ROOT:-$(cd "$(dirname "${BASH_SOURCE[0]}")/.." && pwd)}"; export VERIF_ROOT="$V"
 # run_all.sh [tier] : every registered check on the current tree, sequentially; summary line per check
 tier="${1:-quick}"
-cd /verif
+cd $V
 for p in $(python3 -c "import json;print(' '.join(c['property_id'] for c in json.load(open('MANIFEST.json'))['checks']))"); do
   s=$(date +%s); out=$(python3 harness/check.py $p --tier $tier 2>&1); rc=$?; e=$(date +%s)
   echo "$p exit=$rc $((e-s))s known=$(echo "$out" | grep -c '^KNOWN-FINDING') viol=$(echo "$out" | grep -c '^VIOLATION')"
